@@ -86,6 +86,17 @@ type filter struct {
 type subscription struct {
 	filters []filter
 	ch      chan message
+	// done is closed when the subscriber's stream ends
+	done <-chan struct{}
+}
+
+// send hands msg to the subscriber unless its stream has ended: Publish holds subsMu while sending,
+// and the removal of a subscription whose stream has ended needs subsMu as well
+func (sub *subscription) send(msg message) {
+	select {
+	case sub.ch <- msg:
+	case <-sub.done:
+	}
 }
 
 func subscriptionId() string {
@@ -115,7 +126,7 @@ func (s *spyServer) Publish(vaaBytes []byte) error {
 
 	for _, sub := range s.subs {
 		if len(sub.filters) == 0 {
-			sub.ch <- message{vaaBytes: vaaBytes}
+			sub.send(message{vaaBytes: vaaBytes})
 		} else {
 			if v == nil {
 				var err error
@@ -127,7 +138,7 @@ func (s *spyServer) Publish(vaaBytes []byte) error {
 
 			for _, fi := range sub.filters {
 				if fi.chainId == v.EmitterChain && fi.emitterAddr == v.EmitterAddress {
-					sub.ch <- message{vaaBytes: vaaBytes}
+					sub.send(message{vaaBytes: vaaBytes})
 				}
 			}
 		}
@@ -161,6 +172,7 @@ func (s *spyServer) SubscribeSignedVAA(req *spyv1.SubscribeSignedVAARequest, res
 	sub := &subscription{
 		ch:      make(chan message, 1),
 		filters: fi,
+		done:    resp.Context().Done(),
 	}
 	s.subs[id] = sub
 	s.subsMu.Unlock()
